@@ -276,6 +276,8 @@ class ExprMixin:
                         return v
                     return BoundV(o, v)
                 if isinstance(own, ClassV):
+                    if isinstance(v, SummaryFn):
+                        return BoundV(o, v)
                     return v
                 return self.models.native_base_attr(self, o, own, name, v)
             own, ga = o.cls.lookup("__getattr__")
